@@ -27,15 +27,39 @@ from harness.core import Ctx, MachineryError
 import os
 PKG = os.environ.get("VERIF_REPO", "/repo") + "/xmlschema"
 CFG = "SPECIFICATION Spec\nCONSTRAINT Mark\nPOSTCONDITION Post\nCHECK_DEADLOCK FALSE\n"
+# XSD 1.1 only: per-value XPath evaluation (assertion facets, assertions on complex types)
+ASSERT_XSD = (f'<xs:schema xmlns:xs="{cm.XS}"><xs:element name="r"><xs:complexType><xs:sequence>'
+              '<xs:element name="v" type="small" maxOccurs="unbounded"/>'
+              '<xs:element name="e" maxOccurs="unbounded" minOccurs="0"><xs:complexType><xs:simpleContent>'
+              '<xs:extension base="xs:int"><xs:attribute name="k" type="xs:int"/>'
+              '<xs:assert test="@k = $value"/></xs:extension></xs:simpleContent></xs:complexType></xs:element>'
+              '</xs:sequence><xs:attribute name="n" type="xs:int"/>'
+              '<xs:assert test="count(v) = @n"/></xs:complexType></xs:element>'
+              '<xs:simpleType name="small"><xs:restriction base="xs:int">'
+              '<xs:assertion test="$value lt 10"/><xs:assertion test="$value mod 2 = 0"/></xs:restriction>'
+              '</xs:simpleType></xs:schema>')
+
+
+def assert_docs():
+    def doc(vals, n=None, es=()):
+        return (f'<r n="{len(vals) if n is None else n}">' + "".join(f"<v>{v}</v>" for v in vals)
+                + "".join(f'<e k="{k}">{t}</e>' for k, t in es) + "</r>")
+    return [doc([2, 4, 6, 8, 0, 2, 4, 6]), doc([12, 14, 16, 18, 20, 22, 24, 26]), doc([2, 13, 4, 15, 6, 17, 8, 19]),
+            doc([1, 3, 5, 7, 9, 1, 3, 5]), doc([2, 4], n=3, es=[(1, "1"), (2, "3"), (5, "5"), (2, "7")])]
+
 
 
 class Sched:
     """Serialises the worker threads; a switch is decided by the seeded generator at yield points."""
 
-    def __init__(self, n, seed, rate):
+    def __init__(self, n, seed, rate, horizon=0):
         self.n = n
         self.rng = random.Random(seed)
         self.rate = rate
+        # arrival times: thread i > 0 cannot be switched to before `start_at[i]` yield points have passed, so
+        # that threads reach build() at any moment of another thread's build (also during its final phase)
+        self.start_at = [0] + [self.rng.randrange(0, horizon + 1) if (horizon and self.rng.random() < 0.7) else 0
+                               for _ in range(n - 1)]
         self.ev = [threading.Event() for _ in range(n)]
         self.done = [False] * n
         self.tid = {}
@@ -47,7 +71,7 @@ class Sched:
         self.ev[0].set()
 
     def _switch(self, i):
-        cands = [j for j in range(self.n) if not self.done[j] and j != i]
+        cands = [j for j in range(self.n) if not self.done[j] and j != i and self.start_at[j] <= self.points]
         if not cands:
             return False
         j = self.rng.choice(cands)
@@ -69,11 +93,16 @@ class Sched:
 
     def blocked(self):
         i = self.tid.get(threading.get_ident())
-        if i is None or not self._switch(i):
+        if i is None:
             time.sleep(0.0005)
+        elif not self._switch(i):
+            self.start_at = [0] * self.n        # everybody else is late: let them arrive now
+            if not self._switch(i):
+                time.sleep(0.0005)
 
     def finish(self, i):
         self.done[i] = True
+        self.start_at = [0] * self.n
         cands = [j for j in range(self.n) if not self.done[j]]
         if cands:
             self.ev[cands[0]].set()
@@ -125,7 +154,30 @@ def run_schedule(job):
         expected = [result_of(base, d) for d in docs]
         nglobals = len(base.maps.elements) + len(base.maps.types)
         s = cls(list(xsds) if len(xsds) > 1 else xsds[0], build=False)
-    sched = Sched(nthreads, seed, 0.03 if controlled else 0.0)
+    horizon = 0
+    if controlled:        # function entries of an undisturbed build(): the range of the arrival times
+        with warnings.catch_warnings():
+            warnings.simplefilter("ignore")
+            probe = cls(list(xsds) if len(xsds) > 1 else xsds[0], build=False)
+        cnt = [0]
+        mon0 = sys.monitoring
+
+        def count(code, off):
+            if code.co_filename.startswith(PKG):
+                cnt[0] += 1
+            else:
+                return mon0.DISABLE
+        mon0.use_tool_id(mon0.PROFILER_ID, "verif-count")
+        mon0.register_callback(mon0.PROFILER_ID, mon0.events.PY_START, count)
+        mon0.set_events(mon0.PROFILER_ID, mon0.events.PY_START)
+        try:
+            probe.build()
+        finally:
+            mon0.set_events(mon0.PROFILER_ID, 0)
+            mon0.register_callback(mon0.PROFILER_ID, mon0.events.PY_START, None)
+            mon0.free_tool_id(mon0.PROFILER_ID)
+        horizon = int(cnt[0] * 1.1)
+    sched = Sched(nthreads, seed, 0.03 if controlled else 0.0, horizon)
     if controlled:
         object.__setattr__(s.maps, "_build_lock", coop_lock(sched))
         object.__setattr__(s.maps.cache, "_lock", coop_lock(sched))
@@ -226,6 +278,8 @@ def run(ctx: Ctx):
     for k in range(60 if thorough else 12):
         x, d = groups[(k * 7) % len(groups)]
         jobs.append(("1.0", x, d, 4, ctx.seed * 100003 + k, False))
+    for k in range(120 if thorough else 24):        # XSD 1.1 per-value XPath evaluation, different documents per thread
+        jobs.append(("1.1", (ASSERT_XSD,), assert_docs(), 2 + k % 3, ctx.seed * 7 + k, k % 6 != 5))
     res = ctx.pmap(run_schedule, jobs, chunks=2)
     trs = []
     points = switches = 0
@@ -262,7 +316,9 @@ def run(ctx: Ctx):
     ctx.rule = ("controlled schedules: 2-4 threads racing build() on an unbuilt schema then validating pool "
                 "documents; switch decisions from a seeded generator at every function entry inside the "
                 "package (3 % switch rate) and at every blocked lock acquisition; plus free-running 4-thread "
-                "stress with a 1 microsecond switch interval")
+                "stress with a 1 microsecond switch interval; threads reach build() at seeded arrival times spread over "
+                "the whole duration of an undisturbed build; plus an XSD 1.1 schema with assertion facets, a complex-type "
+                "assertion validated with different documents per thread")
     ctx.assumptions += ["races inside a single C call are invisible to the controlled scheduler",
                         "documents do not trigger loading of further schemas; pool documents that hit "
                         "F-C10-a (xsi:type under identities) are not in the pool schemas used here"]
